@@ -2,8 +2,11 @@
    tools/py2v_fn.py regenerates from the Python source on every run (Gen/FnCall.v)
    are equal to the hand-written model functions the C01/C02/C18 theorems speak
    about.  A change to the body of one of these Python functions changes the
-   generated definition, and these lemmas are re-checked against it. *)
-From CNV Require Import Base.Prelude Base.Str Gen.Params Gen.CallDefaults Gen.FnCall Model.Call Model.Baf.
+   generated definition, and these lemmas are re-checked against it.
+   This file: the functions of the copy-number path (C01, and _reference_copies_pure for
+   C02); the BAF functions (rescale_baf, the allelic split of do_call) are in
+   Proofs/FnCallBaf.v, so that a change to them does not touch C01's obligations. *)
+From CNV Require Import Base.Prelude Base.Str Gen.Params Gen.CallDefaults Gen.FnCall Model.Call.
 
 From Coq Require Import Lqa.   (* after Prelude: `lra` over Q *)
 Local Open Scope Z_scope.
@@ -53,19 +56,6 @@ Proof.
   rewrite half_lit, pure_y_lit, pure_x_lit. reflexivity.
 Qed.
 
-Lemma normal_baf_lit : normal_baf = (1 # 2)%Q. Proof. reflexivity. Qed.
-
-(* rescale_baf with its default normal_baf *)
-Lemma fn_rescale_baf_eq (p b : Q) :
-  match rescale_baf p (Some b) with
-  | Some t => (fn_rescale_baf p b normal_baf == t)%Q
-  | None => False
-  end.
-Proof.
-  unfold rescale_baf, fn_rescale_baf. rewrite Qred_correct.
-  change (inject_Z 1) with 1%Q. reflexivity.
-Qed.
-
 Lemma fn_abs_pure_all (exp2 : Q -> Q) (v : Q) (r x : Z) :
   (fn_log2_ratio_to_absolute exp2 v r x None == abs_pure (exp2 v) r)%Q /\
   (forall p, (1 <= p)%Q -> (fn_log2_ratio_to_absolute exp2 v r x (Some p) == abs_pure (exp2 v) r)%Q) /\
@@ -73,4 +63,55 @@ Lemma fn_abs_pure_all (exp2 : Q -> Q) (v : Q) (r x : Z) :
 Proof.
   split; [apply fn_abs_none_eq|]. split; [intros p Hp; apply fn_abs_full_purity_eq; exact Hp|].
   apply fn_abs_pure_eq.
+Qed.
+
+(* ------------------------------------------------------------------------------------
+   log2_ratios, read per element (one value of `absolutes`; the two row masks
+   cnarr.chr_x_filter(build).values / cnarr.chr_y_filter(build).values as booleans),
+   regenerated from the Python source on every run. *)
+From Coq Require Import Qround Qabs.
+From CNV Require Base.QNum Proofs.CallNum Proofs.Call.
+Local Open Scope Z_scope.
+
+(* the masks of a row of class c: chr_x_filter selects non-PAR X, chr_y_filter non-PAR Y *)
+Definition on_x_mask (c : cls) : bool := match c with ChrX => true | _ => false end.
+Definition on_y_mask (c : cls) : bool := match c with ChrY => true | _ => false end.
+
+Lemma round_half_even_is_round_he q : QNum.round_half_even q = round_he q.
+Proof. reflexivity. Qed.
+
+Lemma gen_max_pos (x m : Q) : (0 < m)%Q -> (0 < (if Qle_bool m x then x else m))%Q.
+Proof.
+  intro Hm. destruct (Qle_bool m x) eqn:E; [|exact Hm].
+  apply Qle_bool_iff in E. lra.
+Qed.
+
+Lemma gen_max_qmax (x m : Q) : ((if Qle_bool m x then x else m) == qmax x m)%Q.
+Proof.
+  destruct (CallNum.qmax_cases x m) as [[H ->]|[H ->]]; destruct (Qle_bool m x) eqn:E.
+  - apply Qle_bool_iff in E. apply Qle_antisym; assumption.
+  - reflexivity.
+  - reflexivity.
+  - exfalso. assert (L : (m <= x)%Q) by lra. apply Qle_bool_iff in L. congruence.
+Qed.
+
+(* log2_ratios with its default arguments (min_abs_val = the generated default, round_to_int
+   = False), in ratio space: for every oracle pair with exp2 (log2 y) == y on y > 0 and
+   exp2 (v + 1) == 2 * exp2 v, 2^(the Python result) is the model's `rescaled` *)
+Lemma fn_log2_ratios_eq (exp2 log2 : Q -> Q) :
+  (forall y, (0 < y)%Q -> (exp2 (log2 y) == y)%Q) ->
+  (forall v, (exp2 (v + 1) == 2 * exp2 v)%Q) ->
+  forall a k hapx c,
+    (exp2 (fn_log2_ratios log2 a k hapx min_abs_val false (on_x_mask c) (on_y_mask c))
+     == rescaled a k (shifted hapx c))%Q.
+Proof.
+  intros Hinv Hsucc a k hapx c. unfold fn_log2_ratios. cbv zeta.
+  rewrite Call.rescaled_eq.
+  set (m := if Qle_bool min_abs_val (Qdiv a (inject_Z k)) then Qdiv a (inject_Z k) else min_abs_val).
+  assert (Mp : (0 < m)%Q) by (apply gen_max_pos; exact Call.min_abs_pos).
+  assert (Mq : (m == qmax (a / inject_Z k) min_abs_val)%Q) by apply gen_max_qmax.
+  assert (E1 : (exp2 (log2 m) == m)%Q) by (apply Hinv; exact Mp).
+  assert (E2 : (exp2 (Qplus (log2 m) (inject_Z 1)) == 2 * m)%Q).
+  { change (inject_Z 1) with 1%Q. rewrite Hsucc, E1. reflexivity. }
+  destruct c, hapx; cbn [on_x_mask on_y_mask shifted]; rewrite ?E2, ?E1, <- Mq; ring.
 Qed.
